@@ -21,4 +21,5 @@ for id in "$@"; do
   echo "MUTANT $(basename $P): check $id exit=$rc violations=$nv"
   echo "$out" | grep -A1 '^VIOLATION' | grep 'what:' | head -4
   [ $rc -eq 2 ] && echo "$out" | grep -i internal | head -3
+  if [ -n "${DETAIL:-}" ]; then for f in $(ls "$OUT"/replays/$id-*.json 2>/dev/null | head -${DETAIL}); do python3 -c "import json,sys;d=json.load(open('$f'));print(json.dumps(d.get('detail'))[:700])"; done; fi
 done
